@@ -333,7 +333,16 @@ def check_hy_equation(ctx, it, q, f, loop):
     f_pub = nf.add(f_pub, nf.div(nf.sub(nf.add(nf.add(y, y2), y3), y4), nf.power(nf.sub(nf.ONE, y), nf.const(3))))
     f_pub = nf.sub(f_pub, nf.mul(nf.add(nf.sub(nf.mul(c("14.76"), t), nf.mul(c("9.76"), nf.mul(t, t))), nf.mul(c("4.58"), nf.power(t, nf.const(3)))), y2))
     f_pub = nf.add(f_pub, nf.mul(nf.add(nf.sub(nf.mul(c("90.7"), t), nf.mul(c("242.2"), nf.mul(t, t))), nf.mul(c("42.4"), nf.power(t, nf.const(3)))), nf.power(y, nf.add(c("2.18"), nf.mul(c("2.82"), t)))))
-    # the update statement y = y - F / DF inside the loop identifies residual and derivative
+    # the update statement y = y - F / DF inside the loop identifies residual and derivative (y -= F / DF is the same statement)
+    class _Body:
+        body = [
+            ast.copy_location(ast.Assign(targets=[ast.Name(st_.target.id, ast.Store())], value=ast.BinOp(ast.Name(st_.target.id, ast.Load()), ast.Sub(), st_.value), lineno=st_.lineno), st_)
+            if isinstance(st_, ast.AugAssign) and isinstance(st_.op, ast.Sub) and isinstance(st_.target, ast.Name) else st_
+            for st_ in loop.body
+        ]
+        lineno = loop.lineno
+
+    loop = _Body
     upd = None
     for st in loop.body:
         if isinstance(st, ast.Assign) and len(st.targets) == 1 and isinstance(st.targets[0], ast.Name) and isinstance(st.value, ast.BinOp) and isinstance(st.value.op, ast.Sub) and isinstance(st.value.left, ast.Name) and st.value.left.id == st.targets[0].id and isinstance(st.value.right, ast.BinOp) and isinstance(st.value.right.op, ast.Div):
